@@ -2,6 +2,7 @@ package c20
 
 import (
 	"fmt"
+	"math/big"
 	"reflect"
 	"sort"
 	"strings"
@@ -269,4 +270,52 @@ func clip(s string, n int) string {
 		return s[:n] + "...[clipped]"
 	}
 	return s
+}
+
+// sameValue: got (what the written text evaluates to, converted to want's type)
+// is the value want that was handed to the writer.  Numbers are compared with
+// big.Float.Cmp at want's own precision: a number made from a float64 is
+// written with the shortest digits that identify that float64, so it reads back
+// (at the parser's 512 bits) as a number that rounds to it.
+func sameValue(got, want cty.Value) bool {
+	if got.RawEquals(want) {
+		return true
+	}
+	if got.IsNull() || want.IsNull() || !got.IsKnown() || !want.IsKnown() {
+		return false
+	}
+	gt, wt := got.Type(), want.Type()
+	switch {
+	case gt == cty.Number && wt == cty.Number:
+		g, w := got.AsBigFloat(), want.AsBigFloat()
+		if w.Prec() >= g.Prec() {
+			return g.Cmp(w) == 0
+		}
+		r := new(big.Float).SetPrec(w.Prec()).SetMode(big.ToNearestEven).Set(g)
+		return r.Cmp(w) == 0
+	case (gt.IsListType() && wt.IsListType()) || (gt.IsTupleType() && wt.IsTupleType()):
+		gs, ws := got.AsValueSlice(), want.AsValueSlice()
+		if len(gs) != len(ws) {
+			return false
+		}
+		for i := range gs {
+			if !sameValue(gs[i], ws[i]) {
+				return false
+			}
+		}
+		return true
+	case (gt.IsMapType() && wt.IsMapType()) || (gt.IsObjectType() && wt.IsObjectType()):
+		gm, wm := got.AsValueMap(), want.AsValueMap()
+		if len(gm) != len(wm) {
+			return false
+		}
+		for k, wv := range wm {
+			gv, ok := gm[k]
+			if !ok || !sameValue(gv, wv) {
+				return false
+			}
+		}
+		return true
+	}
+	return false
 }
